@@ -129,7 +129,9 @@ class DslProp(PropBase):
         elif kind == "markov":
             c["a"] = GE.to_tree(gen.expr(depth))
         elif kind in ("canon", "canon_eq", "print"):
-            c["a"] = GE.to_tree(tie_family(gen, rng, same_name=(self.pid == "C11")) if rng.random() < 0.25 else gen.expr(depth))
+            r0 = rng.random()
+            c["a"] = GE.to_tree(tie_family(gen, rng, same_name=(self.pid == "C11")) if r0 < 0.25
+                                else nested_fractions(gen, rng) if r0 < 0.33 else gen.expr(depth))
             if kind == "canon":
                 r = rng.random()
                 if r < 0.5:
@@ -361,6 +363,34 @@ def tie_family(gen, rng, same_name=False):
         parts.append(gen.atom())
     rng.shuffle(parts)
     return Product(tuple(parts))
+
+
+def nested_fractions(gen, rng):
+    """Raw fractions whose numerator and/or denominator are themselves fractions over shared factors: dividing them
+    multiplies across, and the two sides of the quotient can then coincide or share factors."""
+    from y0.dsl import Fraction, Product
+    pool = [gen.atom() for _ in range(rng.randint(2, 4))]
+    def prod(k):
+        xs = rng.choices(pool, k=k)
+        return xs[0] if len(xs) == 1 else Product(tuple(xs))
+    def frac():
+        try:
+            return Fraction(prod(rng.randint(1, 3)), prod(rng.randint(1, 2)))
+        except ZeroDivisionError:
+            return prod(2)
+    r = rng.random()
+    try:
+        if r < 0.35:       # (a*b/a) / (b*c/c): equal after multiplying across
+            a, b, c = (rng.choice(pool) for _ in range(3))
+            return Fraction(Fraction(Product((a, b)), a), Fraction(Product((b, c)), c))
+        if r < 0.55:       # a / (b*a/b)
+            a, b = rng.choice(pool), rng.choice(pool)
+            return Fraction(a, Fraction(Product((b, a)), b))
+        if r < 0.8:
+            return Fraction(frac(), frac())
+        return Fraction(frac(), prod(rng.randint(1, 2))) if rng.random() < 0.5 else Fraction(prod(rng.randint(1, 2)), frac())
+    except ZeroDivisionError:
+        return frac()
 
 
 def permute(e, rng):
